@@ -162,34 +162,51 @@ theorem mixed_flags_collision :
     cleanPoint p = true ∧ cleanPoint q = true ∧ idOf p = idOf q ∧ devDelimiter p q = true := by
   decide
 
-/-- `groupBy`: the dimension list is sorted and, for `*`, consists exactly of the point's tag keys that are not
-excluded; for named dimensions exactly of the configured ones. -/
+/-- `groupBy`: for `*` the dimension list consists exactly of the point's tag keys that are not excluded; for named
+dimensions exactly of the configured ones. -/
 theorem group_by_dimensions (tags : Tags) (star : Bool) (dims excl : List String) (t : String) :
     t ∈ computeTagNames tags star (determineTagNames dims excl) excl ↔
       (if star then t ∈ tags.map (·.1) else t ∈ dims) ∧ t ∉ excl := by
   unfold computeTagNames determineTagNames filterExcluded
-  cases star <;> simp [mem_sortStrings, List.mem_filter]
+  cases star <;> simp [mem_sortStrings, mem_uniqueSorted, List.mem_filter]
 
-/-- named dimensions (no `exclude`, which the pipeline only accepts with `*`) come out sorted, whatever order the
-script lists them in — so the id does not depend on the order of the `groupBy` arguments -/
-theorem named_dimensions_sorted (dims : List String) : sortedLe (determineTagNames dims []) = true := by
-  have hf : ∀ l : List String, filterExcluded l [] = l := by
-    intro l; unfold filterExcluded; simp
-  unfold determineTagNames
-  rw [hf]
-  induction dims with
-  | nil => rfl
-  | cons d ds ih => exact sortedLe_insertSorted d _ ih
+/-- named dimensions come out STRICTLY increasing — sorted, every dimension once — whatever order the script lists
+them in and however often it repeats one (`fix:` a050cea; `sort.Strings` then `uniqueSorted`). -/
+theorem named_dimensions_sorted (dims excl : List String) :
+    sortedLt (determineTagNames dims excl) = true ∧ (determineTagNames dims excl).Nodup :=
+  ⟨sortedLt_of_pairwise _ (determineTagNames_pairwise dims excl), nodup_of_pairwise_lt (determineTagNames_pairwise dims excl)⟩
 
-/-- A dimension listed twice (`groupBy('host','host')`) is kept twice on the stream edge, and the window node drops
-the duplicate when it builds the batch header (`NewBeginBatchMessage` takes the sorted tag KEYS): the same tag values
-are spelled by two different ids on the two edges. Within one dimension list identity is unaffected (none of the
-identity theorems assumes distinct dimensions); ids are only comparable between messages carrying the same list. -/
+/-- **One group-by, one dimension list**: two `groupBy` argument lists naming the same dimensions — in any order, with
+any repetitions — give the SAME dimension list, hence the same `Dimensions` on every point and the same id for the same
+tag values. -/
+theorem dimension_list_canonical (d1 d2 excl : List String) (h : ∀ t, t ∈ d1 ↔ t ∈ d2) :
+    determineTagNames d1 excl = determineTagNames d2 excl := by
+  apply pairwise_lt_ext _ _ (determineTagNames_pairwise d1 excl) (determineTagNames_pairwise d2 excl)
+  intro t
+  rw [mem_determineTagNames, mem_determineTagNames, h t]
+
+/-- non-vacuity of `dimension_list_canonical`: `groupBy('host','dc','host')` and `groupBy('dc','host')`. -/
+example : determineTagNames ["host", "dc", "host"] [] = ["dc", "host"] ∧ determineTagNames ["dc", "host"] [] = ["dc", "host"] := by
+  decide
+
+/-- … so a group is spelled the same on the stream edge (dimension list of the `groupBy`) and on the batch edge behind
+a window (`NewBeginBatchMessage`: the sorted tag KEYS of the group, duplicate-free by construction): the batch-edge list
+`eraseDups` of a named dimension list IS that list. -/
+theorem one_spelling_on_both_edges (dims excl : List String) :
+    (determineTagNames dims excl).eraseDups = determineTagNames dims excl :=
+  eraseDups_of_nodup _ (named_dimensions_sorted dims excl).2
+
+/-- Counterexample about the code BEFORE `fix:` a050cea (`determineTagNamesOld`: sorted, repetitions kept): a dimension
+listed twice (`groupBy('host','host')`) was kept twice on the stream edge, and the window node dropped the duplicate
+when it built the batch header — the same tag values were spelled by two different ids on the two edges (and a UDF
+re-derived the batch-edge spelling: C19's former finding batch-dims-rederived). Today both edges carry `[host]`.
+(About `ToGroupID` itself nothing changed: none of the identity theorems assumes distinct dimensions.) -/
 theorem duplicate_dimension_respells_id :
-    let p : GPoint := { byName := false, name := "m", tags := [("host", "A")], dims := ["host", "host"] }
-    let q : GPoint := { byName := false, name := "m", tags := [("host", "A")], dims := ["host"] }
-    idOf p = "host=A,host=A" ∧ idOf q = "host=A" ∧ sameGroup p q = false ∧
-    sameGroup p { p with tags := [("host", "A"), ("x", "1")] } = true := by
+    let old := determineTagNamesOld ["host", "host"] []
+    let p : GPoint := { byName := false, name := "m", tags := [("host", "A")], dims := old }
+    let q : GPoint := { p with dims := old.eraseDups }
+    old = ["host", "host"] ∧ idOf p = "host=A,host=A" ∧ idOf q = "host=A" ∧ sameGroup p q = false ∧
+    determineTagNames ["host", "host"] [] = ["host"] := by
   decide
 
 /-! ## Part 2 — isolation -/
